@@ -88,10 +88,13 @@ CHECKS['C03'] = dict(
          'stamped (call, return) by one global atomic tick at the client boundary; after join: Wing-Gong/Lowe linearizability search against M-list with the final enumeration as last operation, '
          'direct at-most-once-removal / no-loss / no-duplication counts, traversal oracle (no callback twice; callbacks present throughout visited exactly once; none removed before / added after; '
          'order consistent with final list order), structural walk, ledger; schedule perturbation off/random/targeted (incl. the window between before.lock() and the mutex in insert); TSan build; '
+         'the "every call returns without deadlock" clause is also exercised after exceptions: the callback-list and dispatcher families of the C09 fault enumeration continue each history after every injected fault (a lock left held shows as a hang -> watchdog); '
          'distinct_nontrivial = distinct lock-acquisition-order hashes (plain builds)',
     jobs=[J('drv_cblist_mt', 'plain', '', 40000, 600000, shards=8, shards_thorough=16),
           J('drv_cblist_mt', 'tsan', '', 2400, 40000, seed_offset=1, shards=8, shards_thorough=16),
-          J('drv_cblist_mt', 'asan', '', 6000, 60000, seed_offset=2, shards=8, shards_thorough=16)],
+          J('drv_cblist_mt', 'asan', '', 6000, 60000, seed_offset=2, shards=8, shards_thorough=16),
+          J('drv_fault', 'asan17-fault', '', 540, 9000, defs=['-DVF_CFG_MASK=0x03'], seed_offset=3, shards=4, shards_thorough=8),
+          J('drv_fault', 'asan17-fault', '', 540, 9000, defs=['-DVF_CFG_MASK=0x0c'], seed_offset=3, shards=4, shards_thorough=8)],
     assumptions=['x86-TSO only', 'schedules reached by perturbation, not enumerated', 'a linearizability search time-out (5 s) is inconclusive and counted'],
     technique='recorded concurrent histories + offline linearizability checker (Wing-Gong with memoisation, per-key partitioning) + traversal oracle; seeded schedule perturbation through injected policies and guarded preemption points; TSan; ASan',
     level_text='Exploration: thousands of short concurrent histories (<=36 operations each so the search is exact), with race windows widened on purpose; any result set that no sequential execution explains is reported with the history.',
@@ -124,8 +127,10 @@ CHECKS['C05'] = dict(
          'clearEvents/emptyQueue/waitFor(0)/listener changes, DisableQueueNotify objects created and destroyed in any order (they must change nothing but waitFor), with operations issued from inside listeners and predicates (depth<=2), 9 queue configurations '
          '(int/std::string keys, by-value/by-reference/move-only payloads, include/exclude-event forms, getEvent policies incl. non-identity in the exclude form and by-value parameter with temporaries, ordered lists); the model '
          'predicts the next callback (listener, predicate or return) and every real callback is compared with it; per-event state machine and payload '
-         'ledger; non-trivial = >=1 processing call with events and (>=1 re-queued event or >=1 nested operation); distinct = trace hash',
-    jobs=JS('drv_queue', 'asan', 'c05', 2100, 100000, MQ, shards=4) + JS('drv_queue', 'plain', 'c05', 4200, 200000, MQ, seed_offset=1, shards=4),
+         'ledger; argument types whose copy/move throws are inputs too: the queue families of the C09 fault enumeration check that an event whose enqueue failed is not in the queue and that no '
+         'other event is lost, duplicated or destroyed twice; non-trivial = >=1 processing call with events and (>=1 re-queued event or >=1 nested operation); distinct = trace hash',
+    jobs=JS('drv_queue', 'asan', 'c05', 2100, 100000, MQ, shards=4) + JS('drv_queue', 'plain', 'c05', 4200, 200000, MQ, seed_offset=1, shards=4)
+         + [J('drv_fault', 'asan17-fault', '', 540, 9000, defs=['-DVF_CFG_MASK=0x30'], seed_offset=2, shards=8, shards_thorough=8)],
     assumptions=['model M-queue + M-disp (DESIGN §4) is the specification', 'single-threaded; schedules are C06'],
     technique='online next-callback-expectation monitor over generated queue histories with re-entrant listeners/predicates; per-event exactly-once state machine; payload ledger; ASan+UBSan',
     level_text='Exploration: every listener call, predicate call and return of a processing call on the real queue is compared with what the sequential model expects next, so a lost, duplicated, '
